@@ -37,6 +37,15 @@ func init() {
 		return c04Compare(string(cs.F), c04ArgLists()[cs.A])
 	}
 	replayers["C04/indexed"] = replayers["C04/programs"]
+	replayers["C04/sizes"] = func(c *Ctx, raw json.RawMessage) string {
+		var cs struct{ N, Shape int }
+		json.Unmarshal(raw, &cs)
+		f, args := sizeShapes[cs.Shape].Mk(cs.N, 0)
+		if f == "" {
+			return c04SprintArgs(args)
+		}
+		return c04Compare(f, args)
+	}
 	replayers["C04/pairs"] = func(c *Ctx, raw json.RawMessage) string {
 		var cs struct {
 			D1, D2 Directive
@@ -174,6 +183,103 @@ func c04Sprint(vs []int) string {
 	return ""
 }
 
+// sizeShapes: families indexed by a size n; Mk returns (format or "" for Sprint, operands) for variant v.
+var sizeShapes = []struct {
+	Name string
+	Mk   func(n, v int) (string, []interface{})
+}{
+	{"Sprint n operands", func(n, v int) (string, []interface{}) {
+		var a []interface{}
+		for k := 0; k < n; k++ {
+			switch k % 4 {
+			case 0:
+				a = append(a, secInt[v]+k)
+			case 1:
+				a = append(a, secPlain[v])
+			case 2:
+				a = append(a, safeT("p"))
+			default:
+				a = append(a, secF[v])
+			}
+		}
+		return "", a
+	}},
+	{"Sprintf n directives", func(n, v int) (string, []interface{}) {
+		var a []interface{}
+		var f strings.Builder
+		for k := 0; k < n; k++ {
+			f.WriteString([]string{"%v,", "%5s|", "%d ", "%-4q;"}[k%4])
+			switch k % 4 {
+			case 0, 2:
+				a = append(a, secInt[v]+k)
+			default:
+				a = append(a, secPlain[v])
+			}
+		}
+		return f.String() + "end", a
+	}},
+	{"[]int of n", func(n, v int) (string, []interface{}) {
+		s := make([]int, n)
+		for k := range s {
+			s[k] = secInt[v] + k
+		}
+		return "%v|%d|%x", []interface{}{s, s, s}
+	}},
+	{"[]string of n", func(n, v int) (string, []interface{}) {
+		s := make([]string, n)
+		for k := range s {
+			s[k] = secPlain[v]
+		}
+		return "%v|%q", []interface{}{s, s}
+	}},
+	{"[]interface{} of n", func(n, v int) (string, []interface{}) {
+		s := make([]interface{}, n)
+		for k := range s {
+			if k%3 == 0 {
+				s[k] = safeT("p")
+			} else {
+				s[k] = secStr[v]
+			}
+		}
+		return "%v|%+v", []interface{}{s, s}
+	}},
+	{"map of n keys", func(n, v int) (string, []interface{}) {
+		m := map[string]int{}
+		for k := 0; k < n; k++ {
+			m[fmt.Sprintf("%s%02d", secKeyA[v], k)] = secInt[v] + k
+		}
+		return "%v|%#v", []interface{}{m, m}
+	}},
+	{"string of n runes", func(n, v int) (string, []interface{}) {
+		s := strings.Repeat([2]string{"a", "Z"}[v], n)
+		return "%s|%10s|%-70s|%.3s|%q|%x", []interface{}{s, s, s, s, s, s}
+	}},
+	{"width n", func(n, v int) (string, []interface{}) {
+		return fmt.Sprintf("%%%dd|%%-%ds|%%0%dd|%%%d.2f", n, n, n, n), []interface{}{secInt[v], secPlain[v], secInt[v], secF[v]}
+	}},
+	{"nesting depth n", func(n, v int) (string, []interface{}) {
+		var x interface{} = secInt[v]
+		for k := 0; k < n && k < 40; k++ {
+			x = []interface{}{x}
+		}
+		return "%v", []interface{}{x}
+	}},
+}
+
+func c04SprintArgs(args []interface{}) string {
+	var r redact.RedactableString
+	var s string
+	_, panR := recoverTo(func() { r = redact.Sprint(args...) })
+	_, panF := recoverTo(func() { s = fmt.Sprint(args...) })
+	if panR != panF {
+		return fmt.Sprintf("Sprint(%d operands): redact panics=%v, fmt panics=%v", len(args), panR, panF)
+	}
+	if got, want := Strip([]byte(r)), Esc([]byte(s)); !bytes.Equal(got, want) {
+		return fmt.Sprintf("Sprint(%d operands): redact %q, stripped %q; fmt %q", len(args), r, got, want)
+	}
+	return ""
+}
+
 func checkC04(c *Ctx) {
 	u := fmtUniverse()
 	sp := quickDirectives()
@@ -223,6 +329,21 @@ func checkC04(c *Ctx) {
 			if dt := c04Compare(ifs[i], ial[ai], w.SeenS); dt != "" {
 				w.Fail("indexed", map[string]interface{}{"F": []byte(ifs[i]), "A": 100 + ai, "quoted": q(ifs[i])}, dt)
 			}
+		}
+	})
+	// systematic size family: operand counts, directive counts and container sizes 0..70
+	c.Section("C04/sizes", map[string]interface{}{"sizes": "every n in 0..70", "shapes": len(sizeShapes)}, 71*len(sizeShapes), func(i int, w *Worker) {
+		n, sh := i/len(sizeShapes), i%len(sizeShapes)
+		f, args := sizeShapes[sh].Mk(n, 0)
+		w.Eval()
+		var dt string
+		if f == "" {
+			dt = c04SprintArgs(args)
+		} else {
+			dt = c04Compare(f, args, w.SeenS)
+		}
+		if dt != "" {
+			w.Fail("sizes:"+sizeShapes[sh].Name, map[string]interface{}{"N": n, "Shape": sh}, dt)
 		}
 	})
 	md := midDirectives()
